@@ -167,6 +167,13 @@ func NewFullRT(h host.Host, protocolPrefix protocol.ID, options ...Option) (*Ful
 	if err := dhtcfg.Apply(fullrtcfg.dhtOpts...); err != nil {
 		return nil, err
 	}
+	if dhtcfg.BucketSize == 0 {
+		// The config is built by hand rather than from Defaults: without a
+		// BucketSize option the bucket size would be 0, with which
+		// GetClosestPeers returns nothing, or never returns when the IP
+		// diversity filter is disabled as well.
+		dhtcfg.BucketSize = amino.DefaultBucketSize
+	}
 	if err := dhtcfg.ApplyFallbacks(h); err != nil {
 		return nil, err
 	}
